@@ -178,7 +178,34 @@ def body_prepared_init(desc, F, *args):
     return None
 
 
-BODIES = {"prepared-init": body_prepared_init, "rewrite": body_rewrite, "initbindings": body_initbindings, "prepared": body_prepared, "store": body_store}
+def body_processor(desc, F, *args):
+    """the public route Graph.query(text, initNs=...) (SPARQLProcessor.query: parse + translate + evaluate per call): the same
+    text under other initNs namespaces, and the full-IRI spelling, evaluated in sequence on one graph; nothing may leak from
+    one call to the next"""
+    g, i = _mkgraph("Memory", desc, F, args)
+
+    def run(text, ns):
+        res = g.query(text, initNs=ns)
+        out = []
+        for b in res.bindings:
+            row = []
+            for v in desc["vars"]:
+                try:
+                    row.append(c08.norm(b[Variable(v)]))
+                except KeyError:
+                    row.append(None)
+            out.append(row)
+        return out
+
+    for step, (text, ns, ref_text) in enumerate(desc["steps"]):
+        a = run(text, ns)
+        b = run(ref_text, {})
+        if not same_rows(a, b):
+            return "Graph.query call %d (prefixes from initNs) answers differently from the full-IRI spelling (%s)" % (step + 1, desc["name"])
+    return None
+
+
+BODIES = {"processor": body_processor, "prepared-init": body_prepared_init, "rewrite": body_rewrite, "initbindings": body_initbindings, "prepared": body_prepared, "store": body_store}
 
 
 # ----------------------------------------------------------------------------- rewrites
@@ -310,6 +337,19 @@ def obligations(tier, seed):
                         desc={"name": c11.show(ast), "rewrite": "path-bound-start", "text1": t3, "text2": t4, "vars1": ["s", "o"],
                               "vars2": ["s", "o"], "nconst": 1, "data": ["p", "q"]},
                         sig=[("x%d" % i, "i") for i in range(5)], budget=300))
+    # 4b. the public route Graph.query(text, initNs=...): one text under two different namespaces for the same prefix name, in
+    #     sequence on one graph (translation must not be carried over from one call to the next)
+    PT = {"bgp": ("SELECT ?s ?o WHERE { ?s x:p ?o }", ["s", "o"]),
+          "optional": ("SELECT ?s ?o ?z WHERE { ?s x:p ?o OPTIONAL { ?o x:q ?z } }", ["s", "o", "z"]),
+          "path": ("SELECT ?s ?o WHERE { ?s x:p/x:q ?o }", ["s", "o"])}
+    for name, (text, vs) in PT.items():
+        def full(ns):
+            return text.replace("x:p", "<%sp>" % ns).replace("x:q", "<%sq>" % ns)
+        for order in (["urn:", "urn:other:", "urn:"], ["urn:other:", "urn:"]):
+            steps = [[text, {"x": ns}, full(ns)] for ns in order]
+            obs.append(dict(oid="processor/%s/%s" % (name, "-".join("A" if n == "urn:" else "B" for n in order)), family="processor",
+                            desc={"name": name, "steps": steps, "vars": vs, "data": ["p", "q"], "nconst": 0},
+                            sig=[("x%d" % i, "i") for i in range(4)], budget=300))
     # 5. initBindings vs VALUES for a variable bound by the outermost BGP
     for name, bgp in list(BGPS.items()) + [("optional", c04.A + [["opt", c04.RIGHTS["o-shared"]]]), ("filter", c04.A + [["filter", ["!=", V("s"), V("o")]]]),
                                            ("union", [["union", c04.A, [tp(V("s"), Q, V("z"))]]])]:
@@ -465,3 +505,12 @@ def residual(ob):
         o2["desc"] = dict(d, assume_disjoint_parts=True)
         return o2
     return None
+
+
+def untraced():
+    # concrete query text through rdflib's own parser and translator: run them outside the tracer (the `processor` family calls
+    # Graph.query, which parses per call; the other families parse inside c04.prepare, already untraced)
+    from rdflib.plugins.sparql.algebra import translateQuery
+    from rdflib.plugins.sparql.parser import parseQuery
+    from ..driver import default_untraced
+    return default_untraced() + [parseQuery, translateQuery]
